@@ -32,7 +32,11 @@ type RTPSink struct {
 	HoldYields int
 	HoldSleep  time.Duration
 	tampered   []string
+	inFlight   atomic.Int32
 }
+
+// InFlight returns the number of Write calls that have started but not yet returned.
+func (s *RTPSink) InFlight() int { return int(s.inFlight.Load()) }
 
 // Tampered lists the writes whose header or payload changed while the sink was still inside Write.
 func (s *RTPSink) Tampered() []string {
@@ -44,6 +48,8 @@ func (s *RTPSink) Tampered() []string {
 
 // Write implements interceptor.RTPWriter.
 func (s *RTPSink) Write(h *rtp.Header, p []byte, a interceptor.Attributes) (int, error) {
+	s.inFlight.Add(1)
+	defer s.inFlight.Add(-1)
 	rec := SentRTP{Header: h.Clone(), Payload: append([]byte(nil), p...), At: time.Now(), Attr: a}
 	s.mu.Lock()
 	idx := len(s.calls)
